@@ -164,7 +164,7 @@ def r12(repo, rep):
     rep.ob("R12.I1", forgets, "remove: the removed item's weight is deleted from the weight table", func=rem0, node=rem0.node,
            construct="remove: weight.pop(choice)", detail="" if forgets else "remove() reads the weight but leaves it in self.weight: "
            "a re-inserted item accumulates its old weight while _total_weight only grows by the new one")
-    rep.floor("R12", "weight stores", nstores, 3)
+    rep.floor("R12", "weight stores", nstores, 2)
     # no method that rewrites _total_weight may run between a weight change and its paired total update
     writers = set()
     changed = True
@@ -232,16 +232,38 @@ def r12(repo, rep):
                          "(non-negative increments); max_weight staying too high never biases rejection sampling")
                 continue
             ok = False
+            env_u = {}
+            for x in own_nodes(upd.node):
+                if isinstance(x, ast.Assign) and len(x.targets) == 1 and isinstance(x.targets[0], ast.Name):
+                    env_u.setdefault(x.targets[0].id, []).append(x.value)
+
+            def only_for_nonpositive(test):
+                """the arm guarded by `test` is only taken when the increment is not positive (so skipping the comparison there
+                cannot miss a raised weight): `not (inc > 0 or ...)`, directly or through a local name bound once"""
+                if isinstance(test, ast.Name) and len(env_u.get(test.id, [])) == 1:
+                    test = env_u[test.id][0]
+                if isinstance(test, ast.UnaryOp) and isinstance(test.op, ast.Not) and isinstance(test.operand, ast.BoolOp) \
+                        and isinstance(test.operand.op, ast.Or):
+                    return any(isinstance(v, ast.Compare) and isinstance(v.ops[0], ast.Gt) and same(v.left, d[1][1])
+                               and short(v.comparators[0]) == "0" for v in test.operand.values)
+                return False
             for s2 in blk[i + 1:]:
-                if isinstance(s2, ast.If):
-                    for fx, pol in atomic_facts(s2.test, True):
+                arm = s2 if isinstance(s2, ast.If) else None
+                first = True
+                while arm is not None:
+                    for fx, pol in atomic_facts(arm.test, True):
                         if isinstance(fx, ast.Compare) and len(fx.ops) == 1 and \
                                 isinstance(fx.ops[0], (ast.Gt, ast.GtE)) and _is_weight_sub(fx.left) \
                                 and same(fx.left.slice, key) and _is_self_attr(fx.comparators[0], "max_weight"):
-                            for s3 in s2.body:
+                            for s3 in arm.body:
                                 if isinstance(s3, ast.Assign) and any(_is_self_attr(t, "max_weight") for t in s3.targets) \
                                         and _is_weight_sub(s3.value) and same(s3.value.slice, key):
                                     ok = True
+                    # an elif is only reached when the arms before it were not taken: go on only past arms that cannot be
+                    # taken after a positive increment
+                    if ok or not only_for_nonpositive(arm.test):
+                        break
+                    arm = arm.orelse[0] if len(arm.orelse) == 1 and isinstance(arm.orelse[0], ast.If) else None
                 # max(self.max_weight, self.weight[k]) form
                 if isinstance(s2, ast.Assign) and any(_is_self_attr(t, "max_weight") for t in s2.targets) \
                         and isinstance(s2.value, ast.Call) and attr_chain(s2.value.func) == "max" \
